@@ -10,6 +10,7 @@ type StackN<const N: usize, const S: usize> = any_vec::mem::StackN<N, S>;
 
 #[cfg(feature = "lib_alloc")]
 anyvec_pbt::configs! {
+    Tr1_StackBig: Tr1, Stack<140>, dyn Cloneable, G_BACKEND | G_STACK;
     Tr16a4_Multi: Tr16a4, Multi, dyn Cloneable, G_LAYOUT;
     Tr16_EmptyA:   Tr16,   any_vec::mem::Empty, dyn Cloneable, G_ALIGN;
     Tr64_StackA:   Tr64,   Stack<192>,      dyn Cloneable, G_ALIGN;
@@ -25,6 +26,7 @@ anyvec_pbt::configs! {
 
 #[cfg(not(feature = "lib_alloc"))]
 anyvec_pbt::configs! {
+    Tr1_StackBig: Tr1, Stack<140>, dyn Cloneable, G_BACKEND | G_STACK;
     Tr16_EmptyA:   Tr16,   any_vec::mem::Empty, dyn Cloneable, G_ALIGN;
     Tr64_StackA:   Tr64,   Stack<192>,      dyn Cloneable, G_ALIGN;
     Tr24_Stack:   Tr24,   Stack<100>,     dyn Cloneable, G_BACKEND | G_STACK;
